@@ -387,7 +387,7 @@ pub fn is_resource_panic(msg: &str) -> bool {
 }
 
 pub fn reference_cfg() -> SimConfig {
-    SimConfig { workers: 1, reference: true, yield_gap: 0, deliver: None, max_leaf: 0 }
+    SimConfig { workers: 1, reference: true, yield_gap: 0, deliver: None, deliver_expect: 0, max_leaf: 0 }
 }
 
 /// score of a structure file written by the pipeline (typed reload through serde_json)
